@@ -1,0 +1,45 @@
+// Copyright JAMF Software, LLC
+
+//go:build verif
+
+package cluster
+
+import "github.com/lni/dragonboat/v4"
+
+// VerifView gives an external harness access to the unexported shard view.
+type VerifView struct {
+	v *shardView
+	d *delegate
+}
+
+// NewVerifView creates a view together with a memberlist delegate bound to it; infoF feeds the
+// node-local Raft information exactly like Engine.clusterInfo does.
+func NewVerifView(infoF func() Info) *VerifView {
+	v := newView()
+	if infoF == nil {
+		infoF = func() Info { return Info{} }
+	}
+	return &VerifView{v: v, d: &delegate{shardView: v, infoF: infoF}}
+}
+
+func (w *VerifView) Update(updates []dragonboat.ShardView) { w.v.update(updates) }
+
+func (w *VerifView) Copy() []dragonboat.ShardView { return w.v.copy() }
+
+func (w *VerifView) ShardInfo(id uint64) dragonboat.ShardView { return w.v.shardInfo(id) }
+
+// LocalState is the gossip push/pull payload the delegate would send.
+func (w *VerifView) LocalState() []byte { return w.d.LocalState(false) }
+
+// MergeRemoteState feeds a gossip payload received from a peer.
+func (w *VerifView) MergeRemoteState(buf []byte) { w.d.MergeRemoteState(buf, false) }
+
+// VerifMergeShardInfo exposes the pure merge function.
+func VerifMergeShardInfo(current, update dragonboat.ShardView) dragonboat.ShardView {
+	return mergeShardInfo(current, update)
+}
+
+// VerifToShardViewList exposes the ShardInfo -> ShardView conversion.
+func VerifToShardViewList(input []dragonboat.ShardInfo) []dragonboat.ShardView {
+	return toShardViewList(input)
+}
